@@ -80,7 +80,7 @@ class CCodeMapper(SimplifyingSortingStringifyMapper):
         self.cse_prefix = cse_prefix
 
         self.cse_to_name = {cse: name for name, cse in cse_name_list}
-        self.cse_names = {cse for name, cse in cse_name_list}
+        self.cse_names = {name for name, cse in cse_name_list}
         self.cse_name_list = cse_name_list[:]
 
         self.complex_constant_base_type = complex_constant_base_type
@@ -88,9 +88,17 @@ class CCodeMapper(SimplifyingSortingStringifyMapper):
     def copy(self, cse_name_list=None):
         if cse_name_list is None:
             cse_name_list = self.cse_name_list
-        return CCodeMapper(self.reverse,
+        result = CCodeMapper(self.reverse,
                 self.cse_prefix, self.complex_constant_base_type,
                 cse_name_list)
+
+        # cse_name_list only records the code generated for each name. Key the
+        # names inherited from *self* by the expressions they stand for, so
+        # that the copy does not hoist those subexpressions a second time.
+        name_to_cse = {name: cse for cse, name in self.cse_to_name.items()}
+        result.cse_to_name = {
+                name_to_cse.get(name, cse): name for name, cse in cse_name_list}
+        return result
 
     def copy_with_mapped_cses(self, cses_and_values):
         return self.copy(self.cse_name_list + cses_and_values)
